@@ -453,6 +453,201 @@ theorem quat_qdotdot_is_derivative (q : Q4 K) (w b : V3 K) :
   simp only [quat_N, quat_qdotdot]; mob_unfold; ring_all
 end Quat2
 
+/-! ## More instances: Euler-mode and FreeLine / Ellipsoid poses -/
+
+/-- a turning rotation with an independently moving origin is a rigid motion -/
+theorem isRigid_of_turns {R : M33 (Jet K)} {w : V3 K} (hR : Turns R w) (p v : V3 K) :
+    IsRigidVel ⟨R, V3.var p v⟩ ⟨w, v⟩ := by
+  refine ⟨hR, ?_⟩
+  obtain ⟨a, b, c⟩ := v; mob_unfold
+
+theorem Free.Hmul_wv (w v : V3 K) : Hmul Free.H [w.x, w.y, w.z, v.x, v.y, v.z] = ⟨w, v⟩ := by
+  obtain ⟨x, y, z⟩ := w; obtain ⟨vx, vy, vz⟩ := v; simp only [Free.H, Ball.H]; mob_unfold; ring_all
+
+/-- Free, Euler mode: `q̇ = (N_P(q) ω, v)` -/
+theorem Free.Xe_jet {c0 c1 c2 s0 s1 s2 ooc1 : K} (h0 : Trig c0 s0) (h1 : Trig c1 s1) (hc : ooc1 * c1 = 1) (p w v : V3 K) :
+    let qd := bodyXYZ_N_P c0 s0 s1 ooc1 w
+    IsRigidVel (Free.Xe (Jet.cosL c0 s0 qd.x) (Jet.cosL c1 s1 qd.y) (Jet.cosL c2 s2 qd.z)
+                        (Jet.sinL c0 s0 qd.x) (Jet.sinL c1 s1 qd.y) (Jet.sinL c2 s2 qd.z) (V3.var p v))
+      (Hmul Free.H [w.x, w.y, w.z, v.x, v.y, v.z]) := by
+  intro qd
+  rw [Free.Hmul_wv]
+  have t := rotXYZ_turns (c2 := c2) (s2 := s2) h0 h1 qd
+  rw [bodyXYZ_NInv_N h0 h1 hc] at t
+  exact isRigid_of_turns t p v
+
+section QuatInst
+variable [CharZero K]
+/-- the normalised quaternion rotation on lifted coordinates turns with `ω` -/
+theorem ballRq_turns (q : Q4 K) (r : K) (w : V3 K) :
+    Turns (rotQuat (Q4.smul (Jet.invSqrtL (Q4.normSq (Q4.var q (quat_N q w))) r) (Q4.var q (quat_N q w)))) w := by
+  rw [smul_var_quat_N]; exact rotQuat_turns _ w
+theorem ballRq_re (q : Q4 K) (r : K) (w : V3 K) :
+    (rotQuat (Q4.smul (Jet.invSqrtL (Q4.normSq (Q4.var q (quat_N q w))) r) (Q4.var q (quat_N q w)))).re
+      = rotQuat (Q4.smul r q) := by
+  rw [smul_var_quat_N, rotQuat_var_re]
+
+/-- FreeLine (quaternion mode, forward): speeds = (x,y of ω in M; v in F), `q̇ = (N(q)·R_FM(u₀,u₁,0), v)` -/
+theorem FreeLine.Xq_jet (q : Q4 K) (r : K) (p v : V3 K) (u0 u1 : K) :
+    let X0 := Free.Xq q r p
+    let w := X0.R.mulVec ⟨u0, u1, 0⟩
+    IsRigidVel (Free.Xq (Q4.var q (quat_N q w)) (Jet.invSqrtL (Q4.normSq (Q4.var q (quat_N q w))) r) (V3.var p v))
+      (Hmul (FreeLine.H X0) [u0, u1, v.x, v.y, v.z]) := by
+  intro X0 w
+  have hv : Hmul (FreeLine.H X0) [u0, u1, v.x, v.y, v.z] = ⟨w, v⟩ := by
+    obtain ⟨vx, vy, vz⟩ := v
+    simp only [w, FreeLine.H, LineOrientation.H]; mob_unfold; ring_all
+  rw [hv]
+  exact isRigid_of_turns (ballRq_turns q r w) p v
+/-- Ellipsoid, quaternion mode -/
+theorem Ellipsoid.Xq_jet (semi : V3 K) (q : Q4 K) (r : K) (w : V3 K) :
+    IsRigidVel (Ellipsoid.Xof (V3.const semi)
+        (rotQuat (Q4.smul (Jet.invSqrtL (Q4.normSq (Q4.var q (quat_N q w))) r) (Q4.var q (quat_N q w)))))
+      (Hmul (Ellipsoid.H semi (rotQuat (Q4.smul r q)).col2) [w.x, w.y, w.z]) := by
+  have h := Ellipsoid.X_FM_jet semi _ w (ballRq_turns q r w)
+  rw [ballRq_re] at h
+  exact h
+end QuatInst
+
+/-- Ellipsoid, Euler mode -/
+theorem Ellipsoid.Xe_jet (semi : V3 K) {c0 c1 c2 s0 s1 s2 ooc1 : K} (h0 : Trig c0 s0) (h1 : Trig c1 s1)
+    (hc : ooc1 * c1 = 1) (w : V3 K) :
+    IsRigidVel (Ellipsoid.Xof (V3.const semi) (rotXYZJet c0 c1 c2 s0 s1 s2 (bodyXYZ_N_P c0 s0 s1 ooc1 w)))
+      (Hmul (Ellipsoid.H semi (rotXYZ c0 c1 c2 s0 s1 s2).col2) [w.x, w.y, w.z]) := by
+  have t := rotXYZ_turns (c2 := c2) (s2 := s2) h0 h1 (bodyXYZ_N_P c0 s0 s1 ooc1 w)
+  rw [bodyXYZ_NInv_N h0 h1 hc] at t
+  have h := Ellipsoid.X_FM_jet semi _ w t
+  rw [rotXYZJet_re] at h
+  exact h
+
+/-- body-frame Euler block: `NInv_P(q)·(N_B(q)·ω_M) = R(q)·ω_M` -/
+theorem bodyXYZ_NInvP_NB {c0 c1 c2 s0 s1 s2 ooc1 : K} (h0 : Trig c0 s0) (h1 : Trig c1 s1) (h2 : Trig c2 s2)
+    (hc : ooc1 * c1 = 1) (wM : V3 K) :
+    bodyXYZ_NInv_P c0 s0 c1 s1 ((bodyXYZ_N_B s1 c2 s2 ooc1).mulVec wM) = (rotXYZ c0 c1 c2 s0 s1 s2).mulVec wM := by
+  have e0 := h0.sq; have e1 := h1.sq; have e2 := h2.sq
+  have hc1 : c1 ≠ 0 := fun h => by rw [h, mul_zero] at hc; exact zero_ne_one hc
+  have ho : ooc1 = 1 / c1 := by field_simp; linear_combination hc
+  subst ho
+  obtain ⟨x, y, z⟩ := wM
+  simp only [bodyXYZ_NInv_P, bodyXYZ_N_B, rotXYZ]; mob_unfold
+  repeat' apply And.intro
+  all_goals (field_simp; trig_ring [e0, e1, e2])
+/-- LineOrientation, Euler mode (forward): `q̇ = N_B(q)·(u₀,u₁,0)` -/
+theorem LineOrientation.Xe_jet {c0 c1 c2 s0 s1 s2 ooc1 : K} (h0 : Trig c0 s0) (h1 : Trig c1 s1) (h2 : Trig c2 s2)
+    (hc : ooc1 * c1 = 1) (u0 u1 : K) :
+    let qd := (bodyXYZ_N_B s1 c2 s2 ooc1).mulVec ⟨u0, u1, 0⟩
+    IsRigidVel ⟨rotXYZJet c0 c1 c2 s0 s1 s2 qd, V3.var V3.zero V3.zero⟩
+      (Hmul (LineOrientation.H ⟨rotXYZ c0 c1 c2 s0 s1 s2, V3.zero⟩) [u0, u1]) := by
+  intro qd
+  have hv : Hmul (LineOrientation.H ⟨rotXYZ c0 c1 c2 s0 s1 s2, V3.zero⟩) [u0, u1]
+      = ⟨(rotXYZ c0 c1 c2 s0 s1 s2).mulVec ⟨u0, u1, 0⟩, V3.zero⟩ := by
+    simp only [LineOrientation.H]; mob_unfold; ring_all
+  rw [hv]
+  have t := rotXYZ_turns (c2 := c2) (s2 := s2) h0 h1 qd
+  rw [bodyXYZ_NInvP_NB h0 h1 h2 hc] at t
+  exact isRigid_of_turns t V3.zero V3.zero
+/-- FreeLine, Euler mode (forward) -/
+theorem FreeLine.Xe_jet {c0 c1 c2 s0 s1 s2 ooc1 : K} (h0 : Trig c0 s0) (h1 : Trig c1 s1) (h2 : Trig c2 s2)
+    (hc : ooc1 * c1 = 1) (p v : V3 K) (u0 u1 : K) :
+    let qd := (bodyXYZ_N_B s1 c2 s2 ooc1).mulVec ⟨u0, u1, 0⟩
+    IsRigidVel ⟨rotXYZJet c0 c1 c2 s0 s1 s2 qd, V3.var p v⟩
+      (Hmul (FreeLine.H ⟨rotXYZ c0 c1 c2 s0 s1 s2, p⟩) [u0, u1, v.x, v.y, v.z]) := by
+  intro qd
+  have hv : Hmul (FreeLine.H ⟨rotXYZ c0 c1 c2 s0 s1 s2, p⟩) [u0, u1, v.x, v.y, v.z]
+      = ⟨(rotXYZ c0 c1 c2 s0 s1 s2).mulVec ⟨u0, u1, 0⟩, v⟩ := by
+    obtain ⟨vx, vy, vz⟩ := v
+    simp only [FreeLine.H, LineOrientation.H]; mob_unfold; ring_all
+  rw [hv]
+  have t := rotXYZ_turns (c2 := c2) (s2 := s2) h0 h1 qd
+  rw [bodyXYZ_NInvP_NB h0 h1 h2 hc] at t
+  exact isRigid_of_turns t p v
+
+/-! ## Reversed `HDot_FM` and ground-frame `HDot_PB_G` are time derivatives -/
+
+/-- default `calcReverseMobilizerHDot_FM`: derivative of the reversed hinge column when the stored (reversed) transform
+moves rigidly with `V_FM` and the forward column has derivative `hj.eps` -/
+theorem reverseHDotCol_is_derivative {X : Xf (Jet K)} {V : SV K} (h : IsRigidVel X V) (hj : SV (Jet K)) :
+    (reverseHCol X hj).eps = reverseHDotCol X.re V (reverseHCol X.re hj.re) hj.eps := by
+  obtain ⟨⟨⟨a0, a1⟩, ⟨b0, b1⟩, ⟨c0, c1⟩, ⟨d0, d1⟩, ⟨e0, e1⟩, ⟨f0, f1⟩, ⟨g0, g1⟩, ⟨h0, h1⟩, ⟨i0, i1⟩⟩, ⟨⟨x0, x1⟩, ⟨y0, y1⟩, ⟨z0, z1⟩⟩⟩ := X
+  obtain ⟨⟨wx, wy, wz⟩, ⟨vx, vy, vz⟩⟩ := V
+  obtain ⟨⟨⟨p0, p1⟩, ⟨q0, q1⟩, ⟨r0, r1⟩⟩, ⟨⟨s0, s1⟩, ⟨t0, t1⟩, ⟨u0, u1⟩⟩⟩ := hj
+  simp only [IsRigidVel] at h
+  mob_unfold at h
+  obtain ⟨⟨r1', r2, r3, r4, r5, r6, r7, r8, r9⟩, r10, r11, r12⟩ := h
+  subst r1' r2 r3 r4 r5 r6 r7 r8 r9 r10 r11 r12
+  simp only [reverseHCol, reverseHDotCol]; mob_unfold; ring_all
+
+/-- `calcParentToChildVelocityJacobianInGroundDot`: derivative of the ground-frame hinge column when the parent turns
+with `ω_GP`, the mobilizer moves rigidly with `V_FM`, and the `F`-frame column has derivative `hj.eps` -/
+theorem HDot_PB_G_col_is_derivative {Rg : M33 (Jet K)} {wg : V3 K} (hg : Turns Rg wg) {X_FM : Xf (Jet K)} {V_FM : SV K}
+    (hm : IsRigidVel X_FM V_FM) (X_PF X_MB : Xf K) (hj : SV (Jet K)) :
+    (H_PB_G_col Rg (Xf.const X_PF) X_FM (Xf.const X_MB) hj).eps
+      = HDot_PB_G_col Rg.re wg X_PF X_FM.re X_MB V_FM.w hj.re hj.eps (H_PB_G_col Rg.re X_PF X_FM.re X_MB hj.re) := by
+  obtain ⟨⟨A0, A1⟩, ⟨B0, B1⟩, ⟨C0, C1⟩, ⟨D0, D1⟩, ⟨E0, E1⟩, ⟨F0, F1⟩, ⟨G0, G1⟩, ⟨H0, H1⟩, ⟨I0, I1⟩⟩ := Rg
+  obtain ⟨⟨⟨a0, a1⟩, ⟨b0, b1⟩, ⟨c0, c1⟩, ⟨d0, d1⟩, ⟨e0, e1⟩, ⟨f0, f1⟩, ⟨g0, g1⟩, ⟨h0, h1⟩, ⟨i0, i1⟩⟩, ⟨⟨x0, x1⟩, ⟨y0, y1⟩, ⟨z0, z1⟩⟩⟩ := X_FM
+  obtain ⟨⟨wx, wy, wz⟩, ⟨vx, vy, vz⟩⟩ := V_FM
+  obtain ⟨gx, gy, gz⟩ := wg
+  obtain ⟨⟨⟨p0, p1⟩, ⟨q0, q1⟩, ⟨r0, r1⟩⟩, ⟨⟨s0, s1⟩, ⟨t0, t1⟩, ⟨u0, u1⟩⟩⟩ := hj
+  obtain ⟨⟨fa, fb, fc, fd, fe, ff, fg, fh, fi⟩, ⟨fx, fy, fz⟩⟩ := X_PF
+  obtain ⟨⟨ma, mb, mc, md, me, mf, mg, mh, mi⟩, ⟨mx, my, mz⟩⟩ := X_MB
+  unfold Turns at hg
+  simp only [IsRigidVel] at hm
+  mob_unfold at hg hm
+  obtain ⟨k1, k2, k3, k4, k5, k6, k7, k8, k9⟩ := hg
+  obtain ⟨⟨r1', r2, r3, r4, r5, r6, r7, r8, r9⟩, r10, r11, r12⟩ := hm
+  subst k1 k2 k3 k4 k5 k6 k7 k8 k9 r1' r2 r3 r4 r5 r6 r7 r8 r9 r10 r11 r12
+  simp only [H_PB_G_col, HDot_PB_G_col]; mob_unfold; ring_all
+
+/-! ## Whole path from Ground: induction over the executed tree step -/
+
+/-- one mobilized body on the path: its fixed frames, its mobilizer pose jet, hinge matrix and speeds -/
+structure Joint (K : Type) where
+  X_PF : Xf K
+  X_MB : Xf K
+  X_FM : Xf (Jet K)
+  H_FM : List (SV K)
+  u : List K
+
+/-- the mobilizer's pose/velocity is a jet pair and all rotations are proper -/
+def Joint.Ok (j : Joint K) : Prop :=
+  IsRigidVel j.X_FM (Hmul j.H_FM j.u) ∧ IsRot j.X_PF.R ∧ IsRot j.X_MB.R ∧ IsRot j.X_FM.R.re
+
+/-- the executed recursion (`X_GB`, `H_PB_G`, `V_GB` of the model) along a path of bodies starting at a parent state -/
+def pathKin : List (Joint K) → Xf (Jet K) × SV K → Xf (Jet K) × SV K
+  | [], s => s
+  | j :: js, (X, V) =>
+    pathKin js (X_GB X (Xf.const j.X_PF) j.X_FM (Xf.const j.X_MB),
+                V_GB X.re V (X_PB j.X_PF j.X_FM.re j.X_MB) (Hmul (H_PB_G X.R.re j.X_PF j.X_FM.re j.X_MB j.H_FM) j.u))
+
+theorem X_GB_isRot {X_GP X_FM : Xf (Jet K)} (X_PF X_MB : Xf K) (rP : IsRot X_GP.R.re) (rF : IsRot X_PF.R)
+    (rM : IsRot X_FM.R.re) (rB : IsRot X_MB.R) :
+    IsRot (X_GB X_GP (Xf.const X_PF) X_FM (Xf.const X_MB)).R.re := by
+  have cF : (Xf.const X_PF).R.re = X_PF.R := by obtain ⟨⟨a, b, c, d, e, f, g, h, i⟩, p⟩ := X_PF; simp only [Xf.const]; mob_unfold
+  have cB : (Xf.const X_MB).R.re = X_MB.R := by obtain ⟨⟨a, b, c, d, e, f, g, h, i⟩, p⟩ := X_MB; simp only [Xf.const]; mob_unfold
+  simp only [X_GB, X_PB, Xf.mul, M33.mul_re, cF, cB]
+  exact rP.mul (rF.mul (rM.mul rB))
+
+/-- **tree-level statement**: along any path from a rigidly moving ancestor (Ground: pose `1`, velocity `0`), every
+body's pose jet moves rigidly with the velocity the executed recursion computes (`tree_vel_is_derivative`) -/
+theorem path_vel_is_derivative : ∀ (js : List (Joint K)) (X : Xf (Jet K)) (V : SV K),
+    IsRigidVel X V → IsRot X.R.re → (∀ j ∈ js, j.Ok) →
+    IsRigidVel (pathKin js (X, V)).1 (pathKin js (X, V)).2 ∧ IsRot (pathKin js (X, V)).1.R.re
+  | [], X, V, h, r, _ => by simp only [pathKin]; exact ⟨h, r⟩
+  | j :: js, X, V, h, r, hall => by
+    have hj : j.Ok := hall j (List.mem_cons_self ..)
+    obtain ⟨hM, rF, rB, rM⟩ := hj
+    simp only [pathKin]
+    apply path_vel_is_derivative js
+    · exact child_vel_is_derivative j.X_PF j.X_MB j.H_FM j.u h hM r rF rM
+    · exact X_GB_isRot j.X_PF j.X_MB r rF rM rB
+    · intro k hk; exact hall k (List.mem_cons_of_mem _ hk)
+
+/-- Ground is a rigidly "moving" base -/
+theorem ground_isRigid : IsRigidVel (Xf.const (Xf.one : Xf K)) SV.zero ∧ IsRot (Xf.const (Xf.one : Xf K)).R.re := by
+  refine ⟨IsRigidVel.const _, ?_⟩
+  have : (Xf.const (Xf.one : Xf K)).R.re = M33.one := by simp only [Xf.const, Xf.one]; mob_unfold
+  rw [this]; exact IsRot.one
+
 /-! ## Non-vacuity -/
 example : Trig (3 / 5 : ℚ) (4 / 5) := by unfold Trig; norm_num
 example : ((5 : ℚ) / 3) * (3 / 5) = 1 := by norm_num
